@@ -362,9 +362,9 @@ def _consistent(gen, g, tags, where):
         require(ok, f"{where}: RandMeth arrays inconsistent", dict(tags, kind="inconsistent_arrays"))
 
 
-def _net_change_in_isclose_window(srf):
-    """The generator's own model copy compares equal (library ==, i.e. numpy.isclose) to the SRF's model although a parameter differs."""
-    a, b = srf.generator.model, srf.model
+def _net_change_in_isclose_window(srf, um=None):
+    """The generator's own model copy compares equal (library ==, i.e. numpy.isclose) to the user's model although a parameter differs."""
+    a, b = srf.generator.model, (srf.model if um is None else um)
 
     def par(m):
         return [float(m.var), float(m.len_scale), float(m.nugget), float(m.rescale)] + [float(x) for x in m.anis] + [float(x) for x in m.angles] + [float(getattr(m, o)) for o in m.opt_arg]
@@ -388,6 +388,7 @@ def check_history(case, rec):
         srf = lib(gs.SRF, model, generator=g, seed=case["seed"], **kw, _tags=tags)
         cur_seed = case["seed"]
         orig = build_model(spec)
+        um = model  # the model object the user holds and edits (the one handed to the SRF last)
         moved = True  # the requested points differ from the ones the object holds (nothing yet)
         for i, op in enumerate(case["ops"]):
             k = op["op"]
@@ -409,11 +410,11 @@ def check_history(case, rec):
                         f = srf(pos)
                     moved = False
                     _consistent(srf.generator, g, otags, where)
-                    ref = _fresh_srf(srf.model, g, kw, cur_seed)(pos)
-                    scale = math.sqrt(float(srf.model.var)) * (kw.get("mean_velocity", 1.0))
+                    ref = _fresh_srf(um, g, kw, cur_seed)(pos)
+                    scale = math.sqrt(float(um.var)) * (kw.get("mean_velocity", 1.0))
                     tol = 1e-9 * max(scale, 1e-300)
                     err = float(np.max(np.abs(np.asarray(f) - np.asarray(ref))))
-                    if err > tol and _net_change_in_isclose_window(srf):
+                    if err > tol and _net_change_in_isclose_window(srf, um):
                         # several in-place changes can compound to a net change inside numpy.isclose's window: known finding K7
                         rec.soft(
                             f"{where}: net in-place model change since the last generation lies inside the isclose window and is not seen "
@@ -437,19 +438,21 @@ def check_history(case, rec):
                     else:
                         pos = pos + op["v"] * (1.0 + 0.1 * np.arange(dim))[:, None]
                 elif k == "param":
-                    _apply_param(srf.model, op, spec)
+                    _apply_param(um, op, spec)
                 elif k == "restore":
                     m2 = copy.deepcopy(orig)
-                    srf.model.var = m2.var
-                    srf.model.len_scale = m2.len_scale
+                    um.var = m2.var
+                    um.len_scale = m2.len_scale
                     if dim > 1:
-                        srf.model.anis = m2.anis
-                        srf.model.angles = m2.angles
+                        um.anis = m2.anis
+                        um.angles = m2.angles
                     for o in spec["opt"]:
-                        setattr(srf.model, o, getattr(m2, o))
-                    srf.model.var = m2.var
+                        setattr(um, o, getattr(m2, o))
+                    um.var = m2.var
                 elif k == "reassign":
-                    srf.model = copy.deepcopy(srf.model)
+                    # an equal-valued but distinct model object is handed over; later edits go through the user's reference to it
+                    um = copy.deepcopy(um)
+                    srf.model = um
                 elif k == "seed_setter":
                     cur_seed = _next_seed(cur_seed, op)
                     srf.generator.seed = cur_seed
@@ -468,10 +471,10 @@ def check_history(case, rec):
                 elif k == "update":
                     ukw = {}
                     if op["with_model"] == "same":
-                        ukw["model"] = srf.model
+                        ukw["model"] = um
                     elif op["with_model"] == "changed":
-                        srf.model.len_scale = srf.model.len_scale * op["factor"]
-                        ukw["model"] = srf.model
+                        um.len_scale = um.len_scale * op["factor"]
+                        ukw["model"] = um
                     if op["seed"] is not None:
                         ukw["seed"] = op["seed"]
                         cur_seed = op["seed"]
